@@ -102,8 +102,11 @@ def exp_ice_specs(draw, custom=True, boundary_indices=True, min_depth=200.0,
     k = draw(floats(0.05, n0 - 1.05))
     a = draw(floats(0.003, 0.05))
     depth = draw(floats(min_depth, max_depth))
+    int_range = draw(st.booleans())
+    if int_range:
+        depth = float(int(depth))
     spec = dict(cls=cls, n0=n0, k=k, a=a, range=[-depth, 0.0], default=False,
-                above=1.0, below=None)
+                above=1.0, below=None, int_range=int_range)
     if boundary_indices:
         spec["above"] = draw(st.sampled_from([1.0, None, 1.2]))
         spec["below"] = draw(st.sampled_from([None, None, 1.5, 2.5]))
@@ -132,8 +135,15 @@ def build_ice(spec):
         return LayeredIce(layers, index_above=spec["above"],
                           index_below=spec["below"])
     cls = getattr(im, spec["cls"])
+    if spec.get("default") and spec["above"] == 1.0 and spec["below"] is None \
+            and spec["range"] == SHIPPED_EXP[spec["cls"]]["range"] and spec["n0"] == SHIPPED_EXP[spec["cls"]]["n0"]:
+        # the shipped model exactly as a user gets it (integer range bounds and all)
+        return cls()
+    rng = tuple(spec["range"])
+    if spec.get("int_range") and all(float(x).is_integer() for x in rng):
+        rng = tuple(int(x) for x in rng)
     return cls(n0=spec["n0"], k=spec["k"], a=spec["a"],
-               valid_range=tuple(spec["range"]), index_above=spec["above"],
+               valid_range=rng, index_above=spec["above"],
                index_below=spec["below"])
 
 
